@@ -835,7 +835,8 @@ def execS : Nat → Stmt → SM ν (SVal ν)
       if declType == 3 then do
         match ← lookupName fname with
         | .cls cn =>
-          if cn == "异常" then unspec else
+          -- a constructor can only be given to a type the program defined itself
+          if cn == "异常" then fault 87 else
           modS fun s => { s with classes := s.classes.map fun c => if c.name == cn then { c with ctor := some exec } else c }
         | _ => fault 87
       else declare fname (.fn exec) true
